@@ -38,6 +38,7 @@ import GeoProofs.Lemmas.RELM2Dom
 import GeoProofs.Lemmas.RELM2Disjoint
 import GeoProofs.Lemmas.RELM2Ring
 import GeoProofs.Lemmas.RELM3Areal
+import GeoProofs.Lemmas.RELM3Full
 import Mathlib.Tactic.NormNum
 
 namespace Geo.Proofs.C01
@@ -1782,6 +1783,118 @@ example : ∀ m, relateImpl? (.point ⟨7, 7⟩) (.multiLineString [[⟨0, 0⟩,
     m.get .inside .outside =
       (relateSpec (.point ⟨7, 7⟩) (.multiLineString [[⟨0, 0⟩, ⟨1, 0⟩], [⟨1, 0⟩, ⟨1, 1⟩], [⟨1, 0⟩, ⟨2, 0⟩]])).get .inside .outside :=
   fun m h => relateImpl_point_rows_eq_spec_noPolygon_partial _ _ (by decide +kernel) rfl h _ _ (by decide)
+
+/-! ### the Exterior row: `relate(Point, B) = relateSpec`, the whole matrix, for linear `B` -/
+
+/-- [T] **self-noding does not touch `is_isolated`**; the point has no edge, so every edge of `B` is labelled as an
+isolated edge, `Outside` of the point. -/
+theorem selfNoded_edges_isolated (ar : Arith) (idx : Nat) (g : Geom) :
+    ∀ e ∈ (freshGraph ar idx g).edges, e.isolated = true := fresh_edges_isolated ar idx g
+
+example : ∀ e ∈ (freshGraph Arith.exact 1 (.lineString [⟨0, 0⟩, ⟨2, 2⟩, ⟨2, 0⟩, ⟨0, 2⟩])).edges, e.isolated = true :=
+  selfNoded_edges_isolated _ _ _
+
+/-- [T] **the Exterior row of `relate(Point p, B)` in the model of the implementation, for a `B` all of whose edges
+are line edges** (any arithmetic; `B` valid or not): `EI = 1` as soon as `B` has an edge — every edge is isolated from
+the point and contributes (1, Exterior, Interior); every bundle of every star is labelled `Inside` in `B`'s slot
+(`compute_label_on`: no boundary edge end, an interior one), nothing to propagate, no collapse — and `EB ≥ d` iff
+`d = F`, or `d = 0` and the self-noded graph of `B` has an `OnBoundary` node away from `p` (`copy_nodes_and_labels` is
+the only step that writes `OnBoundary` into `B`'s slot; `label_isolated_nodes` writes `B`'s slot only at `p`). -/
+theorem relateImpl_point_exterior_row_lineEdges (ar : Arith) (p : Pt) (b : Geom)
+    (hE : ∀ e ∈ (freshGraph ar 1 b).edges, e.label = lineLabel 1) (hne : (freshGraph ar 1 b).edges ≠ [])
+    (hdb : (dims b == .two) = false) (hN : NInv 1 (freshGraph ar 1 b).nodes)
+    {m : IM} (h : relateGraph ar (.point p) b = some m) :
+    m.get .outside .inside = .one ∧
+    (∀ d : Dim, d.rank ≤ (m.get .outside .onBoundary).rank ↔
+      d = .empty ∨ (d.rank ≤ Dim.zero.rank ∧
+        ∃ g ∈ (freshGraph ar 1 b).nodes, g.coord ≠ p ∧ g.label.onPos 1 = some .onBoundary)) :=
+  point_ext_row_linear ar p b hE hne hdb hN h
+
+/-- a point beside a segment -/
+example : ∀ m, relateGraph Arith.exact (.point ⟨1, 0⟩) (.line ⟨0, 0⟩ ⟨2, 2⟩) = some m → m.get .outside .inside = .one :=
+  fun m h => (relateImpl_point_exterior_row_lineEdges _ _ _ (by decide +kernel) (by decide +kernel) rfl
+    (ninv_fresh_linear (linearAs_of_linOk _ (by decide +kernel) rfl)) h).1
+
+/-- [T] **the Exterior row of the specification for `Point × linear B`**: `EI = 1` as soon as `B` has a curve with
+two distinct consecutive coordinates; `EB ≥ d` iff `d = F`, or `d = 0` and some point other than `p` is located on the
+boundary of `B`. -/
+theorem relateSpec_point_linear_exterior_row (p : Pt) (ls : List (List Pt)) {l : List Pt} (hl : l ∈ ls) (hlong : Long l) :
+    (relateSpec (.point p) (.multiLineString ls)).get .outside .inside = .one ∧
+    (∀ d : Dim, d.rank ≤ ((relateSpec (.point p) (.multiLineString ls)).get .outside .onBoundary).rank ↔
+      d = .empty ∨ (d.rank ≤ Dim.zero.rank ∧ ∃ v, v ≠ p ∧ locate (.multiLineString ls) v = .onBoundary)) :=
+  spec_ext_row_linear p ls hl hlong
+
+example : (relateSpec (.point ⟨1, 0⟩) (.multiLineString [[⟨0, 0⟩, ⟨2, 2⟩]])).get .outside .inside = .one :=
+  (relateSpec_point_linear_exterior_row _ _ (List.mem_singleton.2 rfl) ⟨⟨0, 0⟩, ⟨2, 2⟩, [], by decide +kernel⟩).1
+
+/-- [T] **`relate(Point p, B) = relateSpec (Point p) B` — the WHOLE matrix — on the graph path, for every linear `B`
+of the domain that has an edge** (Line, LineString, MultiLineString — shared end points and closed members included —
+and collections of them; exact arithmetic). Rows Interior / Boundary: `relateImpl_point_rows_eq_spec_allTypes_partial`;
+Exterior row: the two theorems above, joined by `impl_nodes_carry_locate_linear` (the `OnBoundary` nodes of the graph
+are the points the specification locates on the boundary: every boundary point is an end point, hence a node). -/
+theorem relateImpl_point_linear_graph_eq_spec (p : Pt) (b : Geom) (hd : inDomain b = true) (hl : linOk b = true)
+    (hne : (freshGraph Arith.exact 1 b).edges ≠ []) {m : IM}
+    (h : relateGraph Arith.exact (.point p) b = some m) : m = relateSpec (.point p) b :=
+  point_linear_full p b hd hl hne h
+
+/-- the common end point of three line strings against them: the whole matrix -/
+example : ∀ m, relateGraph Arith.exact (.point ⟨1, 0⟩)
+      (.multiLineString [[⟨0, 0⟩, ⟨1, 0⟩], [⟨1, 0⟩, ⟨1, 1⟩], [⟨1, 0⟩, ⟨2, 0⟩]]) = some m →
+    m = relateSpec (.point ⟨1, 0⟩) (.multiLineString [[⟨0, 0⟩, ⟨1, 0⟩], [⟨1, 0⟩, ⟨1, 1⟩], [⟨1, 0⟩, ⟨2, 0⟩]]) :=
+  fun m h => relateImpl_point_linear_graph_eq_spec _ _ (by decide +kernel) rfl (by decide +kernel) h
+
+/-- [T] **`relate(Point p, B) = relateSpec (Point p) B` for `B` a Line, LineString or MultiLineString of the validity
+domain — whole matrix, both paths of `compute_intersection_matrix`, no further hypothesis**: whatever the model of the
+implementation returns is the specification's matrix. Full statement (every `B` of the domain): the Exterior row is
+open for areal `B` (needs an interior face sample of a valid polygon on the specification side, the side labels of the
+area edges on the implementation side) and for collections (no `DimsSpec` on the shortcut path). -/
+theorem relateImpl_point_lineType_eq_spec_partial (p : Pt) (b : Geom) (hd : inDomain b = true)
+    (ht : lineType b = true) {m : IM} (h : relateImpl? (.point p) b = some m) : m = relateSpec (.point p) b := by
+  cases henv : envelopesMeet (.point p) b with
+  | true =>
+    have hg : relateGraph Arith.exact (.point p) b = some m := by
+      unfold relateImpl? relateImplWith at h
+      rw [henv, if_pos rfl] at h
+      exact h
+    exact point_lineType_graph p b hd ht henv hg
+  | false =>
+    have := relateImpl_disjoint_eq_spec_noPolygon_partial Arith.exact (a := .point p) (b := b) rfl hd rfl
+      (by cases b <;> first | rfl | cases ht) henv
+    unfold relateImpl? at h
+    rw [this] at h
+    exact (Option.some.inj h).symm
+
+/-- [T] … **and the total function**: `relate` never panics on these operands (`relateImpl_never_panics`), so
+`relateImpl (Point p) B = relateSpec (Point p) B` and, through the two transpose laws, `relateImpl B (Point p) =
+relateSpec B (Point p)`. -/
+theorem relateImpl_point_lineType_eq_spec_total_partial (p : Pt) (b : Geom) (hd : inDomain b = true)
+    (ht : lineType b = true) :
+    relateImpl (.point p) b = relateSpec (.point p) b ∧ relateImpl b (.point p) = relateSpec b (.point p) := by
+  have hz : noZeroLine b = true := by
+    cases b <;> first | rfl | cases ht
+    simpa [inDomain, validGeom, noZeroLine] using hd
+  have hc : ringsClosed b = true := by cases b <;> first | rfl | cases ht
+  have hs := relateImpl_never_panics (.point p) b rfl hz rfl hc
+  have h1 : relateImpl (.point p) b = relateSpec (.point p) b := by
+    obtain ⟨m, hm⟩ := Option.isSome_iff_exists.1 hs
+    unfold relateImpl
+    rw [hm]
+    exact relateImpl_point_lineType_eq_spec_partial p b hd ht hm
+  refine ⟨h1, ?_⟩
+  rw [relateImpl_transpose_closed (.point p) b rfl hz rfl hc, h1, relateSpec_transpose (.point p) b]
+
+/-- a point on, at the end of, and away from an open line string with a corner: the whole matrices -/
+example : relateImpl (.point ⟨4, 1⟩) (.lineString [⟨0, 0⟩, ⟨4, 0⟩, ⟨4, 3⟩]) =
+    relateSpec (.point ⟨4, 1⟩) (.lineString [⟨0, 0⟩, ⟨4, 0⟩, ⟨4, 3⟩]) :=
+  (relateImpl_point_lineType_eq_spec_total_partial _ _ (by decide +kernel) rfl).1
+
+example : relateImpl (.lineString [⟨0, 0⟩, ⟨4, 0⟩, ⟨4, 3⟩]) (.point ⟨4, 3⟩) =
+    relateSpec (.lineString [⟨0, 0⟩, ⟨4, 0⟩, ⟨4, 3⟩]) (.point ⟨4, 3⟩) :=
+  (relateImpl_point_lineType_eq_spec_total_partial _ _ (by decide +kernel) rfl).2
+
+example : relateImpl (.point ⟨9, 9⟩) (.multiLineString [[⟨0, 0⟩, ⟨1, 0⟩], [⟨1, 0⟩, ⟨1, 1⟩], [⟨1, 0⟩, ⟨2, 0⟩]]) =
+    relateSpec (.point ⟨9, 9⟩) (.multiLineString [[⟨0, 0⟩, ⟨1, 0⟩], [⟨1, 0⟩, ⟨1, 1⟩], [⟨1, 0⟩, ⟨2, 0⟩]]) :=
+  (relateImpl_point_lineType_eq_spec_total_partial _ _ (by decide +kernel) rfl).1
 
 end Impl3
 
